@@ -214,6 +214,8 @@ def install(mod, rec):
             with builtins.open(dst, "wb") as fh:
                 if eff == "partial":
                     fh.write(data[:max(1, len(data) // 2)])
+                elif eff == "full":
+                    fh.write(data)
         return rec.call("copy2", rec.role_of(dst), lambda: shutil.copy2(src, dst, *a, **k), effect=effect)
 
     def w_copyfileobj(src, dst, *a, **k):
@@ -246,9 +248,9 @@ def install(mod, rec):
                     raw.flush()        # observation aid (the bytes reach the file at close() anyway)
 
             def effect(eff):
-                if eff == "partial":
+                if eff in ("partial", "full"):
                     text = render(data, *a, **k)
-                    raw.write(text[:max(1, len(text) // 2)])
+                    raw.write(text[:max(1, len(text) // 2)] if eff == "partial" else text)
                     raw.flush()
             return rec.call("dump", stream._role, real, effect=effect)
         return w_dump
